@@ -46,6 +46,27 @@ class Own:
     class Inner:
         pass
 
+
+class lazyprop(property):
+    """user-defined subclasses of the builtin descriptors (as abc.abstractproperty and friends are)"""
+
+
+class cmeth2(classmethod):
+    pass
+
+
+class smeth2(staticmethod):
+    pass
+
+
+def wraps_deco(f):
+    import functools
+
+    @functools.wraps(f)
+    def wrapper(*a, **kw):
+        return f(*a, **kw)
+    return wrapper
+
 '''
 
 VALUE_GROUPS = [
@@ -83,6 +104,8 @@ class FuncSpec:
         self.ret_vals = []
         self.yield_vals = []
         self.exit = "return"  # return | none | raise | mixed
+        self.subdeco = False  # decorate through a subclass of classmethod / staticmethod / property
+        self.wrapped = False  # behind a functools.wraps wrapper written with a plain def
 
     @property
     def qual(self):
@@ -118,11 +141,13 @@ class FuncSpec:
     def render(self, indent=""):
         lines = []
         if self.kind == "class":
-            lines.append("@classmethod")
+            lines.append("@cmeth2" if self.subdeco else "@classmethod")
         elif self.kind == "static":
-            lines.append("@staticmethod")
+            lines.append("@smeth2" if self.subdeco else "@staticmethod")
         elif self.kind == "property":
-            lines.append("@property")
+            lines.append("@lazyprop" if self.subdeco else "@property")
+        elif self.wrapped:
+            lines.append("@wraps_deco")
         ret = f" -> {self.ret_ann}" if self.ret_ann else ""
         head = ("async def " if self.flavor == "coro" else "def ") + f"{self.name}({self.signature_text()}){ret}:"
         lines.append(head)
@@ -246,6 +271,9 @@ class Mod:
             prefix = {"module": "fn", "instance": "m", "class": "cm", "static": "sm", "property": "pr"}[kind]
             f = FuncSpec(idx, f"{prefix}_{'with_a_long_function_name_' if rng.random() < 0.1 else ''}{idx}", cls_path, kind, flavor)
             self.gen_params(f, unique)
+            f.subdeco = kind in ("class", "static", "property") and rng.random() < 0.2
+            if self.opts.get("wrapped"):
+                f.wrapped = kind in ("module", "instance") and rng.random() < 0.12
             # return / yield behaviour
             r = rng.random()
             if flavor == "gen":
